@@ -1518,6 +1518,7 @@ def run(prop, tier, seed):
         per = 1500
         done = 0
         bi = 0
+        escalated = bool(problems)
         while done < n:
             k = min(per, n - done)
             cases, stats = gen_cases(prop, k, seed * 1000 + bi)
@@ -1527,8 +1528,13 @@ def run(prop, tier, seed):
             batches.append(("gen%d" % bi, cases, res, summ))
             done += k
             bi += 1
-            if summ["diffs"] or summ["monviol"] or summ["crashes"]:
-                break                                  # enough to report; shrink below
+            if summ["monviol"] or summ["crashes"]:
+                break                                  # a failing input: enough to report; shrink below
+            if summ["diffs"] and not escalated:
+                # the correspondence is broken but no monitor is false yet: keep searching the real crate with the
+                # escalated budget for an input on which the property itself fails (DESIGN.md 2.4)
+                escalated = True
+                n = max(n, THOROUGH_N[prop] // 2)
         for bname, cases, res, summ in batches:
             n_eval += len(cases)
             for k_ in ("ok", "ambig", "validated", "fuel"):
